@@ -28,11 +28,12 @@
 (***************************************************************************)
 EXTENDS Integers, Sequences, FiniteSets, TLC
 
-Phases == {"Rejected", "Query", "Convert", "Equil", "RowPerm", "Order", "Preorder", "Factor", "Singular", "NoMem", "Growth", "Cond",
+Phases == {"Rejected", "Query", "Convert", "Equil", "RowPerm", "RestoreRows", "Order", "Preorder", "Factor", "Singular", "NoMem", "Growth", "Cond",
            "ScaleB", "CopyBX", "Solve", "Refine", "NoRefine", "UnscaleX", "Warn", "Cleanup"}
 \* phases that write caller-visible data (everything but the bookkeeping ones)
 Writes(p) == CASE p = "Equil" -> {"A", "R", "C", "equed"}
-               [] p = "RowPerm" -> {"A"}                                \* (?gsisx: rows permuted by MC64, restored at Cleanup)
+               [] p = "RowPerm" -> {"A"}                                \* (?gsisx: row indices permuted by MC64 ...)
+               [] p = "RestoreRows" -> {"A"}                            \* (... and restored before any return)
                [] p = "Order" -> {"perm_c"}
                [] p = "Preorder" -> {"perm_c", "etree"}
                [] p = "Factor" -> {"L", "U", "perm_r"}
@@ -89,6 +90,10 @@ SafeClauses(o, info, n, eq, ph) ==
      \cup (IF info >= 0 /\ ~IsQuery(o) /\ NoFact(o) /\ Count(ph, "Factor") # 1 THEN {"C06.not_factored_exactly_once"} ELSE {})
      \cup (IF o.Cond /\ (info = 0 \/ info = n + 1) /\ ~IsQuery(o) /\ Count(ph, "Cond") # 1 THEN {"C12.estimate_requested_but_not_computed"} ELSE {})
      \cup (IF ~o.Cond /\ info = n + 1 THEN {"C12.warning_without_estimate"} ELSE {})
+     \* incomplete factorization driver: the caller's matrix comes back with its original row indices on every return path
+     \cup (IF Count(ph, "RowPerm") # Count(ph, "RestoreRows") THEN {"C15.row_indices_not_restored"} ELSE {})
+     \cup (IF Count(ph, "RowPerm") > 0 /\ ~(o.ilu /\ o.mc64 /\ NoFact(o)) THEN {"C15.row_permutation_without_request"} ELSE {})
+     \cup (IF ~Before(ph, "RowPerm", "Factor") \/ ~Before(ph, "Factor", "RestoreRows") THEN {"C15.phase_order"} ELSE {})
 SafeRun(o, info, n, eq, ph) == SafeClauses(o, info, n, eq, ph) = {}
 
 (***************************************************************************)
@@ -101,7 +106,7 @@ VARIABLES pc, o, hist, info, eq
 vars == <<pc, o, hist, info, eq>>
 
 Init == /\ pc = "Screen" /\ hist = <<>> /\ info = 0
-        /\ o \in {x \in Opt : ~x.ilu /\ ~x.mc64}
+        /\ o \in {x \in Opt : (x.mc64 => x.ilu) /\ (x.ilu => ~x.Refine)}       \* (?gsisx has no refinement; MC64 only there)
         /\ eq \in (IF o.Fact = 3 THEN {"N", "R", "C", "B"} ELSE {"N"})         \* equed is an input with supplied factors
 Do(p, next) == /\ hist' = Append(hist, p) /\ pc' = next
 Skip(next) == /\ hist' = hist /\ pc' = next
@@ -112,9 +117,14 @@ Screen == /\ pc = "Screen"
              \/ /\ ~IsQuery(o) /\ Skip("Convert") /\ UNCHANGED <<o, info, eq>>
 Convert == /\ pc = "Convert" /\ (IF o.nr THEN Do("Convert", "Equil") ELSE Skip("Equil")) /\ UNCHANGED <<o, info, eq>>
 Equil == /\ pc = "Equil"
-         /\ IF NoFact(o) /\ o.Equil
-            THEN \E e \in {"N", "R", "C", "B"} : eq' = e /\ Do("Equil", "Order")
-            ELSE Skip("Order") /\ eq' = eq
+         /\ \/ \* ?gsisx with LargeDiag_MC64: the matching succeeds -> rows permuted (and A scaled by exp(u), exp(v) if Equil) ...
+               /\ o.ilu /\ o.mc64 /\ NoFact(o)
+               /\ hist' = hist \o <<"RowPerm">> \o (IF o.Equil THEN <<"Equil">> ELSE <<>>)
+               /\ eq' = (IF o.Equil THEN "B" ELSE eq) /\ pc' = "Order"
+            \/ \* ... or fails (or was not requested): ordinary equilibration
+               /\ IF NoFact(o) /\ o.Equil
+                  THEN \E e \in {"N", "R", "C", "B"} : eq' = e /\ Do("Equil", "Order")
+                  ELSE Skip("Order") /\ eq' = eq
          /\ UNCHANGED <<o, info>>
 Order == /\ pc = "Order"
          /\ (IF NoFact(o) /\ o.Fact = 0 THEN Do("Order", "Preorder") ELSE Skip("Preorder"))      \* (MY_PERMC: no Order event either)
@@ -128,8 +138,10 @@ Factor == /\ pc = "Factor"
              ELSE Skip("AfterFactor") /\ info' = info
           /\ UNCHANGED <<o, eq>>
 AfterFactor == /\ pc = "AfterFactor"
-               /\ IF info > 0 THEN (IF info <= N THEN hist' = hist \o <<"Growth", "Singular">> ELSE hist' = Append(hist, "NoMem")) /\ pc' = "Done"
-                  ELSE Skip("Growth")
+               /\ LET rr == IF Count(hist, "RowPerm") > Count(hist, "RestoreRows") THEN <<"RestoreRows">> ELSE <<>> IN   \* (?gsisx: before any return)
+                  IF info > N THEN hist' = hist \o rr \o <<"NoMem">> /\ pc' = "Done"
+                  ELSE IF info > 0 /\ ~o.ilu THEN hist' = hist \o <<"Growth", "Singular">> /\ pc' = "Done"
+                  ELSE hist' = hist \o rr /\ pc' = "Growth"         \* (?gsisx goes on with replaced pivots, 0 < info <= n)
                /\ UNCHANGED <<o, info, eq>>
 Growth == /\ pc = "Growth" /\ (IF o.Growth THEN Do("Growth", "Cond") ELSE Skip("Cond")) /\ UNCHANGED <<o, info, eq>>
 Cond == /\ pc = "Cond" /\ (IF o.Cond THEN Do("Cond", "ScaleB") ELSE Skip("ScaleB")) /\ UNCHANGED <<o, info, eq>>
@@ -137,12 +149,12 @@ ScaleB == /\ pc = "ScaleB"
           /\ IF o.nrhs = 0 THEN Skip("Warn")
              ELSE LET sb == (NotranEff(o) /\ eq \in {"R", "B"}) \/ (~NotranEff(o) /\ eq \in {"C", "B"})
                       ux == (NotranEff(o) /\ eq \in {"C", "B"}) \/ (~NotranEff(o) /\ eq \in {"R", "B"})
-                  IN /\ hist' = hist \o (IF sb THEN <<"ScaleB">> ELSE <<>>) \o <<"CopyBX", "Solve">> \o (IF o.Refine THEN <<"Refine">> ELSE <<"NoRefine">>)
+                  IN /\ hist' = hist \o (IF sb THEN <<"ScaleB">> ELSE <<>>) \o <<"CopyBX", "Solve">> \o (IF o.Refine THEN <<"Refine">> ELSE IF o.ilu THEN <<>> ELSE <<"NoRefine">>)
                                   \o (IF ux THEN <<"UnscaleX">> ELSE <<>>)
                      /\ pc' = "Warn"
           /\ UNCHANGED <<o, info, eq>>
 Warn == /\ pc = "Warn"
-        /\ \/ o.Cond /\ info' = N + 1 /\ Do("Warn", "Cleanup")
+        /\ \/ o.Cond /\ info = 0 /\ info' = N + 1 /\ Do("Warn", "Cleanup")
            \/ info' = info /\ Skip("Cleanup")
         /\ UNCHANGED <<o, eq>>
 Cleanup == /\ pc = "Cleanup" /\ Do("Cleanup", "Done") /\ UNCHANGED <<o, info, eq>>
@@ -155,4 +167,6 @@ PolicyIsSafe == pc = "Done" => SafeRun(o, info, N, eq, hist)
 \* negative controls (MC_Driver_neg.cfg): a driver that scales B before it knows the factorization succeeded is reported
 ScaleBEarly == /\ pc = "Factor" /\ NoFact(o) /\ o.nrhs > 0 /\ hist' = hist \o <<"ScaleB", "Factor">> /\ info' = 1 /\ pc' = "AfterFactor" /\ UNCHANGED <<o, eq>>
 SpecNeg == Init /\ [][Next \/ ScaleBEarly]_vars
+NoMemForgetsRows == /\ pc = "AfterFactor" /\ info > N /\ Count(hist, "RowPerm") > 0 /\ hist' = Append(hist, "NoMem") /\ pc' = "Done" /\ UNCHANGED <<o, info, eq>>
+SpecNeg2 == Init /\ [][Next \/ NoMemForgetsRows]_vars
 =============================================================================
